@@ -24,6 +24,7 @@ POINTER = ['IsRoot', 'Count', 'Back', 'Front', 'SplitFront', 'SplitAt', 'SplitBa
 WALKS = ['ParseIndex', 'ResolveJson', 'ResolveMutJson', 'ResolveToml', 'ResolveMutToml']
 DELETE = ['DeleteJson', 'DeleteToml', 'SplitBack']
 EXPAND = ['ExpandJson', 'ExpandToml', 'SplitBack']
+ASSIGN = [f + b for b in ('Json', 'Toml') for f in ('AssignScalar', 'AssignObject', 'AssignArray', 'AssignValue', 'Assign')] + ['SplitFront', 'IsRoot', 'ForLenIncl']
 BUF = ['FromTokens', 'PushFront', 'PushBack', 'PopBack', 'Append', 'Clear', 'PopFront', 'Replace']
 def _u(*ls):
     out = []
@@ -36,14 +37,15 @@ PROP_FUNCS = {
     'C01': _u(['ValidateBytes'], TOKEN, SLICE, POINTER, BUF),
     'C11': _u(BUF, ['IsRoot', 'Count']),
     'C02': ['ValidateBytes'], 'C14': ['ValidateBytes'],
-    'C05': _u(WALKS, ['IndexFromStr', 'ForLen']), 'C09': _u(WALKS, DELETE, EXPAND, ['IndexFromStr', 'ForLen']), 'C15': _u(WALKS, ['IndexFromStr', 'ForLen']),
-    'C08': _u(WALKS, DELETE, ['IndexFromStr', 'ForLen']), 'C10': _u(WALKS, DELETE, EXPAND, ['IndexFromStr', 'ForLen']),
-    'C06': _u(EXPAND, ['IndexFromStr', 'ForLenIncl']), 'C07': _u(EXPAND, ['IndexFromStr', 'ForLenIncl']),
+    'C05': _u(WALKS, ['IndexFromStr', 'ForLen']), 'C09': _u(WALKS, DELETE, EXPAND, ASSIGN, ['IndexFromStr', 'ForLen']), 'C15': _u(WALKS, ASSIGN, ['IndexFromStr', 'ForLen']),
+    'C08': _u(WALKS, DELETE, ['IndexFromStr', 'ForLen']), 'C10': _u(WALKS, DELETE, EXPAND, ASSIGN, ['IndexFromStr', 'ForLen']),
+    'C06': _u(EXPAND, ASSIGN, ['IndexFromStr', 'ForLenIncl']), 'C07': _u(EXPAND, ASSIGN, ['IndexFromStr', 'ForLenIncl']),
     'C03': TOKEN, 'C04': _u(ACCESS, ['FromTokens']), 'C12': _u(SLICE, SPLITS), 'C13': _u(RELS, ['Append']), 'C16': INDEX,
     'C19': _u(TOKEN, SLICE, SPLITS, RELS, ACCESS),
 }
 TRANSPORT_MEMBERS = {'TransportValidate': ['ValidateBytes'], 'TransportToken': TOKEN, 'TransportSlice': SLICE, 'TransportIndex': INDEX,
-                     'TransportPointer': POINTER, 'TransportResolve': WALKS, 'TransportBuf': BUF, 'TransportDelete': ['DeleteJson', 'DeleteToml'], 'TransportExpand': ['ExpandJson', 'ExpandToml']}
+                     'TransportPointer': POINTER, 'TransportResolve': WALKS, 'TransportBuf': BUF, 'TransportDelete': ['DeleteJson', 'DeleteToml'], 'TransportExpand': ['ExpandJson', 'ExpandToml'],
+                     'TransportAssign': [x for x in ASSIGN if x.startswith('Assign')]}
 TIE_THEOREMS = {
     'ValidateBytes': ['Jp.Tie.validate_bytes_eq', 'Jp.Tie.validate_bytes_nil'], 'FromEncoded': ['Jp.Tie.from_encoded_eq'],
     'TokenNew': ['Jp.Tie.new_eq'], 'Decoded': ['Jp.Tie.decoded_eq'], 'ForLen': ['Jp.Tie.for_len_eq'],
@@ -62,6 +64,12 @@ TIE_THEOREMS = {
     'IndexFromStr': ['Jp.Tie.index_from_str_eq'],
     'ExpandJson': ['Jp.Tie.expand_json_eq'], 'ExpandToml': ['Jp.Tie.expand_toml_eq'],
     'DeleteJson': ['Jp.Tie.delete_json_eq'], 'DeleteToml': ['Jp.Tie.delete_toml_eq'],
+    'AssignScalarJson': ['Jp.Tie.assign_scalar_json_eq'], 'AssignObjectJson': ['Jp.Tie.assign_object_json_eq'],
+    'AssignArrayJson': ['Jp.Tie.assign_array_json_eq'], 'AssignValueJson': ['Jp.Tie.assign_value_json_eq', 'Jp.Tie.assign_value_json_loop'],
+    'AssignJson': ['Jp.Tie.assign_json_eq'],
+    'AssignScalarToml': ['Jp.Tie.assign_scalar_toml_eq'], 'AssignObjectToml': ['Jp.Tie.assign_object_toml_eq'],
+    'AssignArrayToml': ['Jp.Tie.assign_array_toml_eq'], 'AssignValueToml': ['Jp.Tie.assign_value_toml_eq', 'Jp.Tie.assign_value_toml_loop'],
+    'AssignToml': ['Jp.Tie.assign_toml_eq', 'Jp.Tie.assign_toml_eq_toml'],
     'ParseIndex': ['Jp.Tie.parse_index_eq'], 'ResolveJson': ['Jp.Tie.resolve_json_eq', 'Jp.Tie.resolve_json_loop'],
     'ResolveMutJson': ['Jp.Tie.resolve_mut_json_eq'], 'ResolveToml': ['Jp.Tie.resolve_toml_eq'], 'ResolveMutToml': ['Jp.Tie.resolve_mut_toml_eq'],
 }
@@ -78,6 +86,10 @@ TRANSPORT_THEOREMS = {
     'TransportBuf': ['gen_buf_step_eq', 'gen_step_refines', 'gen_from_tokens_tokens', 'gen_append_tokens', 'gen_append_root',
                      'run_gen_buf_eq', 'gen_history_refines'],
     'TransportExpand': ['gen_expand_json_spec', 'gen_expand_backends_agree'],
+    'TransportAssign': ['gen_assign_eq_spec', 'gen_assign_root', 'gen_assign_no_panic', 'gen_assign_atomic', 'gen_assign_read_your_write',
+                        'gen_assign_frame', 'gen_assign_replaced_some', 'gen_assign_replaced_none', 'gen_assign_idempotent',
+                        'gen_assign_backends_agree', 'gen_assign_err_locates', 'gen_assign_error_offsets_bounded',
+                        'genStep_eq_modelStep', 'gen_tree_history_refines', 'gen_tree_no_step_panics'],
     'TransportDelete': ['gen_delete_json', 'gen_delete_toml', 'gen_delete_some_iff_resolves', 'gen_delete_none_unchanged',
                         'gen_delete_no_panic', 'gen_delete_backends_agree'],
     'TransportResolve': ['gen_resolve_json', 'gen_resolve_mut_json', 'gen_resolve_toml', 'gen_resolve_mut_toml', 'gen_four_walks_agree',
